@@ -255,6 +255,9 @@ def check(ctx):
         R.gate(ctx, "C01-D3/GATE", wa, c, "self.buffer is not None", "a closed writer hashes nothing",
                key="C01-D3/GATE|write|closed")
 
+    # ------------------------------------------------------------ D5 the converse: a complete correct copy IS accepted, saved, announced
+    complete(ctx, prog, wa, cba, fparam, sinks, saves, closes)
+
     # ------------------------------------------------------------ D4 length bound
     try:
         mx = ev.name(prog.module("lbry.blob"), "MAX_BLOB_SIZE")
@@ -298,3 +301,112 @@ def check(ctx):
     r = R.single_return_value(gl)
     ctx.ob("C01-D4/DEP", r is not None and unparse(r.value) == "self.length", gl.site(), "get_length() is the stored length",
            func=gl.fi.qualname)
+
+
+def complete(ctx, prog, wa, cba, fparam, sinks, saves, closes):
+    """exactness of every refusal / acceptance test: nothing narrower than the stated condition stands between a complete
+    correct copy and `verified` (a spurious refusal, a dropped registration or a skipped loser breaks the converse clause)"""
+    wq = wa.fi.qualname
+    for s in sinks:
+        R.exact_gate(ctx, "C01-D5/GATE", wa, s,
+                     "self.calculate_blob_hash() == self.expected_blob_hash and self.get_length() == self.len_so_far and "
+                     "self.len_so_far <= self.get_length() and self.get_length() and self.finished and not self.finished.cancelled() "
+                     "and not self.finished.done()",
+                     "a writer whose bytes have the announced length and hash delivers its result unless its future is already settled — no further condition",
+                     ignore=["self.buffer is not None"], key=f"C01-D5/GATE|{wq}|accept-exact")
+    for c, k in R.raise_kinds(wa):
+        pass
+    rz = [r for r, k in R.raise_kinds(wa)]
+    ctx.floor("C01-D5/GATE", "refusals (raise) in HashBlobWriter.write", len(rz), 2, site=wa.site(), func=wq)
+    want = {"unknown blob length": "not self.get_length()", "I/O operation on closed file": "self.get_length() and self.buffer is None and self.finished.done()"}
+    for r in rz:
+        msg = next((str(a.value) for a in ast.walk(r) if isinstance(a, ast.Constant) and isinstance(a.value, str)), "?")
+        g = want.get(msg)
+        if g is None:
+            ctx.ob("C01-D5/GATE", False, wa.site(r), "write() refuses data only for an unknown length or a closed writer", detail=f"additional refusal: {unparse(r)[:80]}", func=wq)
+            continue
+        R.exact_gate(ctx, "C01-D5/GATE", wa, r, g, f"write() raises `{msg}` exactly under its stated condition", key=f"C01-D5/GATE|{wq}|refuse|{msg}")
+    exc = wa.calls(dotted_name="self.finished.set_exception")
+    for c in exc:
+        if "InvalidDataError" in unparse(c):
+            R.exact_gate(ctx, "C01-D5/GATE", wa, c, "not self.len_so_far <= self.get_length() and self.get_length()", "the writer fails for length exactly on an overrun",
+                         ignore=["self.buffer is not None"], key=f"C01-D5/GATE|{wq}|overrun-exact")
+        elif "InvalidBlobHashError" in unparse(c):
+            R.exact_gate(ctx, "C01-D5/GATE", wa, c, "self.calculate_blob_hash() != self.expected_blob_hash and self.get_length() == self.len_so_far and "
+                         "self.len_so_far <= self.get_length() and self.get_length()", "the writer fails for hash exactly on a complete copy with a different digest",
+                         ignore=["self.buffer is not None"], key=f"C01-D5/GATE|{wq}|mismatch-exact")
+    wi = ctx.fa(f"{WCLS}.__init__")
+    z = [x for x in wi.stmts(ast.Assign) if any(dotted(t) == "self.len_so_far" for t in x.targets)]
+    ctx.ob("C01-D5/CONST", len(z) == 1 and is_const(z[0].value, 0), wi.site(), "the running length starts at 0", func=wi.fi.qualname)
+    z = [x for x in wi.stmts(ast.Assign) if any(dotted(t) == "self.get_length" for t in x.targets)]
+    ctx.ob("C01-D5/DEP", len(z) == 1 and dotted(z[0].value) == wi.fi.params()[2], wi.site(), "the expected length is read through the getter handed in", func=wi.fi.qualname)
+    # closing
+    ch = ctx.fa(f"{WCLS}.close_handle")
+    for c in ch.calls(dotted_name="self.finished.cancel"):
+        R.exact_gate(ctx, "C01-D5/GATE", ch, c, "not self.finished.done()", "closing cancels the future of every writer that is still pending", key="C01-D5/GATE|close|cancel-exact")
+    for x in [x for x in ch.stmts(ast.Assign) if any(dotted(t) == "self.buffer" for t in x.targets) and is_const(x.value, None)]:
+        R.exact_gate(ctx, "C01-D5/GATE", ch, x, "self.buffer is not None", "closing drops the buffer whenever there is one", key="C01-D5/GATE|close|drop-exact")
+    # callback: losers and save
+    cbq = cba.fi.qualname
+    for c in closes:
+        R.exact_gate(ctx, "C01-D5/GATE", cba, c, f"not {fparam}.exception() and {dotted(c.func.value)} is not writer",
+                     "EVERY other registered writer is closed by the winner (no further condition)", key=f"C01-D5/GATE|{cbq}|losers-exact")
+    for c in saves:
+        R.exact_gate(ctx, "C01-D5/GATE", cba, c, f"not {fparam}.exception() and not self.writers",
+                     "the winner's bytes are saved whenever its future carries a result", key=f"C01-D5/GATE|{cbq}|save-exact")
+    gw = ctx.fa(f"{ABS}.get_blob_writer")
+    gq = gw.fi.qualname
+    a, pt = gw.fi.params()[1:3]
+    regs = [x for x in gw.stmts(ast.Assign) if any(isinstance(t, ast.Subscript) and dotted(t.value) == "self.writers" for t in x.targets)]
+    ctx.floor("C01-D5/DEP", "writer registration in get_blob_writer", len(regs), 1, site=gw.site(), func=gq)
+    rz = [r for r, k in R.raise_kinds(gw)]
+    for x in regs:
+        ok = unparse(x.targets[0].slice) == f"({a}, {pt})" and dotted(x.value) == "writer"
+        ctx.ob("C01-D5/DEP", ok, gw.site(x), "every new writer is registered under its peer (the winner closes exactly the registered writers)", func=gq, key=f"C01-D5/DEP|{gq}|register")
+        R.exact_gate(ctx, "C01-D5/GATE", gw, x, "", "registration is unconditional once the request was not refused",
+                     ignore=[f"not ({a}, {pt}) in self.writers", f"self.writers[{a}, {pt}].closed()", f"({a}, {pt}) in self.writers"], key=f"C01-D5/GATE|{gq}|register-always")
+    for r in rz:
+        R.exact_gate(ctx, "C01-D5/GATE", gw, r, f"({a}, {pt}) in self.writers and not self.writers[{a}, {pt}].closed()",
+                     "a second writer for the same peer is refused exactly while the first is still open (it would orphan the first, which no winner could then close)",
+                     key=f"C01-D5/GATE|{gq}|refuse-twice")
+    ctx.floor("C01-D5/GATE", "double-download refusal in get_blob_writer", len(rz), 1, site=gw.site(), func=gq)
+    r = R.single_return_value(gw)
+    ctx.ob("C01-D5/DEP", r is not None and dotted(r.value) == "writer", gw.site(), "get_blob_writer returns the registered writer", func=gq)
+    mk = [c for c in gw.calls(name="HashBlobWriter")]
+    ok = len(mk) == 1 and len(mk[0].args) == 3 and dotted(mk[0].args[2]) == "fut" and \
+        any(dotted(c.func) == "fut.add_done_callback" and c.args and dotted(c.args[0]) == "writer_finished_callback" and not R.atomic_facts_at(gw, c)[0] - {(f"(({a}, {pt})) in (self.writers)", False)}
+            for c in gw.calls(name="add_done_callback"))
+    ctx.ob("C01-D5/DEP", ok, gw.site(), "the finishing callback is always attached to the writer's own future", func=gq)
+    # save_verified_blob
+    sv = ctx.fa(f"{ABS}.save_verified_blob")
+    sq = sv.fi.qualname
+    vb = sv.fi.params()[1]
+    wt = [c for c in sv.calls(dotted_name="self._write_blob")]
+    for c in wt:
+        R.exact_gate(ctx, "C01-D5/GATE", sv, c, "not self.verified.is_set() and self.is_writeable()", "verified bytes are written unless the blob is already verified or being written",
+                     key=f"C01-D5/GATE|{sq}|write-exact")
+    cbs = [c for c in sv.calls(name="add_done_callback")]
+    ue = [c for c in cbs if c.args and dotted(c.args[0]) == "update_events"]
+    ok = len(ue) == 1 and bool(wt) and dotted(ue[0].func.value) == "task" and sv.expanded_text(ue[0].func.value) == f"self._write_blob({vb})"
+    ctx.ob("C01-D5/DEP", ok, sv.site(), "update_events (verified.set) is a done-callback of that write task", func=sq)
+    for c in ue:
+        R.exact_gate(ctx, "C01-D5/GATE", sv, c, "not self.verified.is_set() and self.is_writeable()", "…always, once the write was started", key=f"C01-D5/GATE|{sq}|verified-always")
+    an = [c for c in cbs if c.args and isinstance(c.args[0], ast.Lambda)]
+    ok = len(an) == 1 and dotted(an[0].func.value) == "task" and unparse(an[0].args[0].body) == "self.blob_completed_callback(self)"
+    ctx.ob("C01-D5/ORDER", ok, sv.site(), "the completion callback (announce / bookkeeping) is invoked with this blob from a done-callback of the write task — after the bytes are stored", func=sq,
+           key=f"C01-D5/ORDER|{sq}|announce-after-write")
+    for c in an:
+        R.exact_gate(ctx, "C01-D5/GATE", sv, c, "not self.verified.is_set() and self.is_writeable() and self.blob_completed_callback", "…whenever a completion callback is configured",
+                     key=f"C01-D5/GATE|{sq}|announce-exact")
+    R.callers_only(ctx, "C01-D5/CALLERS", "blob_completed_callback", [sq + ".<locals>.<lambda>", sq, f"{ABS}.__init__", f"{BF}.__init__", f"{ABS}.create_from_unencrypted", f"{BF}.create_from_unencrypted",
+                                                                         "lbry.blob.blob_file.BlobBuffer.__init__", "lbry.blob.blob_manager.BlobManager._get_blob"],
+                   "completion callback", floor=2, module_prefix="lbry.blob")
+    ue_f = ctx.fa(sq + ".<locals>.update_events")
+    t = [unparse(x) for x in ue_f.node.body]
+    ctx.ob("C01-D5/DEP", t == ["self.verified.set()", "self.writing.clear()"], ue_f.site(), "update_events sets verified and clears writing, unconditionally", func=ue_f.fi.qualname)
+    iw = ctx.fa(f"{ABS}.is_writeable")
+    r = R.single_return_value(iw)
+    ctx.ob("C01-D5/DEP", r is not None and unparse(r.value) == "not self.writing.is_set()", iw.site(), "writeable == no write in progress", func=iw.fi.qualname)
+    ws = [c for c in sv.calls(dotted_name="self.writing.set")]
+    ok = len(ws) == 1 and bool(wt) and sv.must_precede(wt[0], lambda n: n is ws[0]) is None
+    ctx.ob("C01-D5/ORDER", ok, sv.site(), "the writing flag is raised before the write task starts (a second winner cannot start a second write)", func=sq)
